@@ -61,6 +61,9 @@ def units(tier, seed):
     shapes = {s["name"].split(":")[0]: s for s in G.family_shapes()}
     for spec in [CHAIN5, shapes["S3"], shapes["S18"], shapes["S20"], shapes["S2"], shapes["S9"], shapes["S15"]]:
         us.append({"spec": spec, "xd": False, "lang_cap": 3000, "orders": True})
+    for spec in [s for s in G.finite_family(tier) if s["name"].startswith(("S", "F2:"))] + [CHAIN5]:
+        for xd in (False, True):
+            us.append({"spec": spec, "xd": xd, "lang_cap": 3000, "siblings": True})
     return us
 
 
@@ -145,6 +148,18 @@ def run_unit(unit) -> UnitResult:
                                           f"{spec['name']}: {exc_brief(e)}"))
             return r
         r.executions += 1
+        if unit.get("siblings"):
+            # other grammars over the same class objects are extracted in between (each leaves out one production, or
+            # uses the other depth mode): nothing they compute may show in the analysis of g, which is checked below
+            from geneticengine.grammar.grammar import extract_grammar
+
+            for drop in [p[0] for p in spec["prods"]] + [None]:
+                cons = [c for c in b.considered if c.__name__ != drop]
+                try:
+                    extract_grammar(cons, b.start, (not xd) if drop is None else xd)
+                    r.count("sibling_grammars_extracted")
+                except Exception:  # noqa -- an invalid sub-grammar is fine here
+                    r.count("sibling_grammars_invalid")
         view = R.SpecView(spec)
         reach = R.ref_reachable(spec)
         # "supplied classes" = considered + start; the registration also pulls parents of registered classes
